@@ -10,7 +10,8 @@ functions = [
                (r'std::vector<MetadataTuple> metadata_stack;', 'struct mstack metadata_stack; mstack_init(self, &metadata_stack);', 1),
                (r'metadata_stack\.push_back\(\s*\{((?:[^{}])*)\}\)', r'mstack_push(&metadata_stack, (struct MetadataTuple){\1})', 2),
                (r'!metadata_stack\.empty\(\)', '!mstack_empty(&metadata_stack)', 1), (r'const MetadataTuple mp = metadata_stack\.back\(\);', 'const struct MetadataTuple mp = mstack_back(&metadata_stack);', 1),
-               (r'metadata_stack\.pop_back\(\);', 'mstack_pop(&metadata_stack);', 1),
+               (r'metadata_stack\.pop_back\(\);', 'mstack_pop(&metadata_stack);', 1), (r'metadata_stack\.size\(\)', 'mstack_size(&metadata_stack)', 0), (r'metadata_stack\.empty\(\)', 'mstack_empty(&metadata_stack)', 0),
+               (r'metadata_stack\.(?:back|front)\(\)', 'mstack_back(&metadata_stack)', 0), (r'metadata_stack\[((?:[^\[\]])+)\]', r'mstack_at(&metadata_stack, \1)', 0), (r'(?<!struct )\bMetadataTuple\b', 'struct MetadataTuple', 0),
                (r'std::string sub_metadata_name;', 'uint32_t sub_metadata_name;', 1), (r'DecodeName\(&sub_metadata_name\)', 'MDT_DecodeName(self, &sub_metadata_name)', 1),
                (r'std::unique_ptr<Metadata> sub_metadata =\s*std::unique_ptr<Metadata>\(new Metadata\(\)\);', 'struct MetaNode *sub_metadata = MetaNode_new(self);', 1),
                (r'sub_metadata\.get\(\)', 'sub_metadata', 1),
